@@ -1,21 +1,23 @@
 """C05 -- every catalogued method behaves as documented on every backend that claims it.
 
 proof : Props/C05.v about Model/Scalar.v (documented meaning, from the Term.* docstrings), Model/SqlTemplates.v (SQL AST,
-        three-valued evaluator, formatter templates transcribed from sql_model.py / SQLite.py / PostgreSQL.py) and
-        Model/ScalarBackends.v (hand models of the numpy / pandas / polars primitives each method reaches)
+        three-valued evaluator, formatter templates transcribed from sql_model.py / SQLite.py / PostgreSQL.py),
+        Model/ScalarBackends.v (hand models of the numpy / pandas / polars primitives each method reaches) and
+        Model/AggModels.v (aggregate / window templates and primitives)
 tie   : EXHAUSTIVE FINITE GRID (not sampling): every catalogue row x every argument tuple of a per-type grid that lies in the
-        documented domain, run through extend / project / windowed extend on Pandas, SQLite, PostgreSQL-dialect text on
-        SQLite, and Polars; each observation is compared INSIDE Coq with the backend model (correspondence) and with
-        spec_method (oracle); the SQL text of every one-method expression is compared with the rendered model template;
-        the catalogue, the formatter key sets and the impl-map key sets are compared with the frozen Model/ScalarCatalog.v
+        documented domain (decided by spec_method inside Coq), run through extend / project / windowed extend on Pandas,
+        SQLite, PostgreSQL-dialect text on SQLite, and Polars; each observation is compared INSIDE Coq with the backend model
+        (correspondence) and with the specification (oracle); the SQL text of every one-method expression is compared with the
+        rendered model template; the catalogue, the formatter key sets and the impl-map key sets are compared with the frozen
+        Model/ScalarCatalog.v
 oracle: the same grid; a supported backend whose value differs from the documented one is an implementation violation"""
-import fractions, hashlib, itertools, json, math, os, re, subprocess, sys, time, warnings
+import fractions, itertools, json, math, os, re, subprocess, sys, time, warnings
 import lib
 from lib import clist
 
 INF = float("inf")
 PRE = ("From Coq Require Import List ZArith QArith String.\nImport ListNotations.\n"
-       "From DA Require Import Base.Cases Model.Scalar Model.SqlTemplates Model.ScalarBackends Model.ScalarCatalog Model.ScalarCases.\n"
+       "From DA Require Import Base.Cases Model.Scalar Model.SqlTemplates Model.ScalarBackends Model.ScalarCatalog Model.AggModels Model.ScalarCases.\n"
        "Local Open Scope string_scope.\n")
 
 # ------------------------------------------------------------------------------------------------ grids
@@ -26,9 +28,8 @@ INT_T = INT_Q + [10.0, 12.0, -8.0]
 STR_G = [None, "", "a", "a'b", "abcdef"]
 STR_T = STR_G + ["b", "z", 'q"r']
 BOOL_G = [True, False, None]
-COLTYPE = {"x": "num", "y": "num", "z": "num", "u": "num", "v": "num", "row_id": "int", "q": "int", "a": "bool", "b": "bool",
-           "g": "str", "s2": "str"}
-UNIT = ["x", "sinh"]          # kept small: names that are also method names never appear as columns
+AGG_VALS = [None, 0.0, 1.0, -1.0, 2.5, 3.0]
+COLTYPE = {"x": "num", "y": "num", "z": "num", "row_id": "int", "q": "int", "a": "bool", "b": "bool", "g": "str", "s2": "str"}
 
 # extra one-method expressions beside the catalogue's own rows (more literal choices, both argument orders)
 EXTRA_EXPR = ["x.maximum(y)", "x.minimum(y)", "x.fmax(y)", "x.fmin(y)", "x % y", "x.mod(y)", "x.remainder(y)", "x // y",
@@ -37,18 +38,29 @@ EXTRA_EXPR = ["x.maximum(y)", "x.minimum(y)", "x.fmax(y)", "x.fmin(y)", "x % y",
               "g.trimstr(1, 3)", "g.trimstr(0, 0)", "g.trimstr(2, 5)", 'g.mapv({"a": "x", "": "y"}, "z")', "x.mapv({1.0: 10.0, 3.0: 30.0}, 0.0)",
               "a.if_else(g, s2)", "a.where(g, s2)", "g.as_str()", "x.as_int64()", "x.is_null()", "x.is_nan()", "x.is_inf()", "x.is_bad()",
               "x.abs()", "x.sign()", "x.floor()", "x.ceil()", "x.round()", "x.log()", "x.sqrt()", "x.arctan2(y)", "x.expm1()", "x.log1p()"]
-# date / time family: outside the modelled value domain (DESIGN: partial); never reported as unmodelled rows
+# date / time family: outside the modelled value domain (partial); never reported as unmodelled rows
 DATE_OPS = {"base_Sunday", "date_diff", "datetime_to_date", "dayofmonth", "dayofweek", "dayofyear", "format_date", "format_datetime",
             "month", "parse_date", "parse_datetime", "quarter", "timestamp_diff", "weekofyear", "year"}
+# catalogued zero-argument window helpers without a documented meaning (no Term docstring), and the random generator
+UNDOCUMENTED = {"_count", "_ngroup", "_uniform"}
 MATH1 = {"arccos": math.acos, "arccosh": math.acosh, "arcsin": math.asin, "arcsinh": math.asinh, "arctan": math.atan,
          "arctanh": math.atanh, "cos": math.cos, "cosh": math.cosh, "exp": math.exp, "expm1": math.expm1, "log": math.log,
          "log10": math.log10, "log1p": math.log1p, "sin": math.sin, "sinh": math.sinh, "sqrt": math.sqrt, "tanh": math.tanh}
 BACKENDS = ("pandas", "sqlite", "pgtext", "polars")
 BK = {"pandas": "BPandas", "sqlite": "BSqlite", "pgtext": "BPgtext", "polars": "BPolars"}
-CATCOL = {"pandas": "Pandas", "sqlite": "SQLiteModel", "pgtext": "PostgreSQLModel"}
-# PostgreSQL-dialect text whose meaning on SQLite is not PostgreSQL's (CAST('+infinity' AS DOUBLE PRECISION) is 0 on SQLite):
-# the template is still tied (model of the PostgreSQL template under the SQLite engine), the documented-value oracle is not applied
-PGTEXT_NO_ORACLE = {"is_inf", "is_bad"}
+CLS = {"p": "CProject", "up": "CProject", "g": "CGroup", "w": "CWindow"}
+RAISED = object()
+
+
+def pgtext_oracle_applies(op, args):
+    """PostgreSQL-dialect text executed on SQLite is judged against the documented value only where SQLite's engine agrees
+    with PostgreSQL's: CAST('+infinity' AS DOUBLE PRECISION) is 0 on SQLite (is_inf / is_bad text), and ABS / SIGN are the
+    user functions of SQLite.py there.  The templates are still tied (PostgreSQL template under the SQLite engine model)."""
+    if op in ("is_inf", "is_bad"):
+        return False
+    if op in ("abs", "sign") and any(isinstance(a, float) and math.isinf(a) for a in args):
+        return False
+    return True
 
 
 # ------------------------------------------------------------------------------------------------ Coq literals
@@ -58,23 +70,22 @@ def cq(x):
 
 
 def cstr(s):
-    return lib.cstr(s) + ("%string" if lib.cstr(s).startswith('"') else "")
+    t = lib.cstr(s)
+    return t + ("%string" if t.startswith('"') else "")
 
 
 def csv(v, nan_is_null=True):
     """Python cell -> Coq sval"""
-    if v is None:
+    if v is None or v is RAISED:
         return "SNull"
     if isinstance(v, bool) or type(v).__name__ in ("bool_", "bool"):
         return "(SBool %s)" % ("true" if bool(v) else "false")
     if isinstance(v, str):
         return "(SStr %s)" % cstr(v)
-    try:
-        import pandas as pd
-        if v is pd.NA or v is pd.NaT:
-            return "SNull"
-    except Exception:
-        pass
+    if type(v).__name__ in ("NAType", "NaTType"):
+        return "SNull"
+    if isinstance(v, fractions.Fraction):
+        return "(SNum %s)" % cq(v)
     if isinstance(v, (int, float)) or type(v).__module__ == "numpy":
         x = float(v)
         if math.isnan(x):
@@ -93,9 +104,6 @@ def cobs(o, polars=False):
     return "(Some %s)" % csv(o, nan_is_null=not polars)
 
 
-RAISED = object()
-
-
 def run_coq(files, timeout=900):
     """files: [(name, text)] -> {name: (rc, output)}; compiled in parallel; scratch files removed"""
     cdir = os.path.join(lib.COQ, "cases")
@@ -108,9 +116,9 @@ def run_coq(files, timeout=900):
             name, text = pending.pop(0)
             fn = os.path.join(cdir, name + ".v")
             open(fn, "w").write(text)
-            procs[name] = (subprocess.Popen(["coqc", "-Q", "theories", "DA", "-Q", "cases", "DAcases", os.path.relpath(fn, lib.COQ)],
-                                            cwd=lib.COQ, stdout=subprocess.PIPE, stderr=subprocess.STDOUT, text=True, env=lib.ENV), fn)
-        for name, (p, fn) in list(procs.items()):
+            procs[name] = subprocess.Popen(["coqc", "-Q", "theories", "DA", "-Q", "cases", "DAcases", os.path.relpath(fn, lib.COQ)],
+                                           cwd=lib.COQ, stdout=subprocess.PIPE, stderr=subprocess.STDOUT, text=True, env=lib.ENV)
+        for name, p in list(procs.items()):
             try:
                 out, _ = p.communicate(timeout=0.2)
                 res[name] = (p.returncode, "\n".join(l for l in out.splitlines() if "conda" not in l.lower()))
@@ -140,21 +148,23 @@ def nat_lists(out):
     return [[int(i) for i in re.findall(r"\d+", m)] for m in re.findall(r"= (\[[^\]]*\]|nil)\s*: list nat", flat)]
 
 
+def lit_value(v):
+    return float(v) if isinstance(v, (int, float)) and not isinstance(v, bool) else v
+
+
 # ------------------------------------------------------------------------------------------------ expressions
 class Expr:
-    """one one-method expression: parsed by data_algebra itself into (op, args)"""
+    """one one-method scalar expression: parsed by data_algebra itself into (op, args)"""
 
     def __init__(self, text, source):
         from data_algebra.data_ops import TableDescription
         import data_algebra.expr_rep as er
         self.text, self.source = text, source
         t = TableDescription(table_name="d", column_names=sorted(COLTYPE) + ["k"])
-        self.ops = t.extend({"r": text})
-        ex = self.ops.ops["r"]
+        ex = t.extend({"r": text}).ops["r"]
         self.ok = isinstance(ex, er.Expression)
-        self.why = ""
+        self.why = "" if self.ok else "not an expression"
         if not self.ok:
-            self.why = "not an expression"
             return
         self.op = ex.op
         self.cols, self.slots = [], []            # slots: ("col", name) | ("lit", value)
@@ -181,10 +191,12 @@ class Expr:
                 self.ok, self.why = False, "nested expression"
                 return
         self.lits = [s[0] == "lit" for s in self.slots]
+        self.ucols = sorted(set(self.cols))       # the frame holds exactly the columns the expression reads, plus the row key
+        self.ops = TableDescription(table_name="d", column_names=self.ucols + ["k"]).extend({"r": text})
 
     def grid(self, tier, polars=False):
         gs = []
-        for c in self.cols:
+        for c in self.ucols:
             t = COLTYPE[c]
             g = {"num": NUM_T if tier == "thorough" else NUM_Q, "int": INT_T if tier == "thorough" else INT_Q,
                  "str": STR_T if tier == "thorough" else STR_G, "bool": BOOL_G}[t]
@@ -194,8 +206,8 @@ class Expr:
         return [list(r) for r in itertools.product(*gs)]
 
     def args_of(self, row):
-        it = iter(row)
-        return [next(it) if s[0] == "col" else s[1] for s in self.slots]
+        val = dict(zip(self.ucols, row))
+        return [lit_value(val[s[1]] if s[0] == "col" else s[1]) for s in self.slots]
 
 
 def arg_classes(args):
@@ -219,10 +231,13 @@ def arg_classes(args):
 def signature(op, backend, args, lits):
     cl = arg_classes(args)
     cols = [c for c, l in zip(cl, lits) if not l]
-    return {"method": op, "backend": backend,
-            "null_pattern": "".join("N" if c in ("null", "nan") else "V" for c in cols),
-            "inf_pattern": "".join("I" if c in ("pinf", "ninf") else "-" for c in cols),
-            "classes": ",".join(cols)}
+    sig = {"family": "scalar", "method": op, "backend": backend,
+           "null_pattern": "".join("N" if c in ("null", "nan") else "V" for c in cols),
+           "inf_pattern": "".join("I" if c in ("pinf", "ninf") else "-" for c in cols),
+           "classes": ",".join(cols)}
+    if op == "trimstr":
+        sig["start"] = "zero" if args[1] == 0 else "positive"
+    return sig
 
 
 # ------------------------------------------------------------------------------------------------ backends
@@ -236,6 +251,7 @@ class Runner:
         # shim so that PostgreSQL-dialect text runs on SQLite: LN is the natural logarithm (SQLite.py registers it as "log")
         self.h.conn.create_function("ln", 1, lambda x: None if (x is None or not isinstance(x, (int, float)) or math.isinf(x) or math.isnan(x)) else math.log(x))
         self.pg = data_algebra.PostgreSQL.PostgreSQLModel()
+        self.sq = data_algebra.SQLite.SQLiteModel()
 
     def close(self):
         try:
@@ -243,20 +259,20 @@ class Runner:
         except Exception:
             pass
 
-    def frames(self, cols, rows, polars):
+    def frames(self, cols, types, rows, polars):
         pd, pl = self.pd, self.pl
         data = {c: [r[i] for r in rows] for i, c in enumerate(cols)}
         if polars:
             ser = {}
             for c in cols:
-                t = COLTYPE[c]
+                t = types[c]
                 dt = pl.Float64 if t in ("num", "int") else (pl.Boolean if t == "bool" else pl.Utf8)
                 ser[c] = pl.Series(c, data[c], dtype=dt)
             ser["k"] = pl.Series("k", list(range(len(rows))), dtype=pl.Int64)
             return pl.DataFrame(ser)
         ser = {}
         for c in cols:
-            t = COLTYPE[c]
+            t = types[c]
             if t in ("num", "int"):
                 ser[c] = pd.Series(data[c], dtype="float64")
             elif t == "bool":
@@ -266,40 +282,60 @@ class Runner:
         ser["k"] = pd.Series(list(range(len(rows))), dtype="int64")
         return pd.DataFrame(ser)
 
-    def run_frame(self, backend, ops, cols, rows):
-        """values of column r, one per row, or raises"""
-        if backend == "polars":
-            d = self.frames(cols, rows, True)
-            r = ops.transform(d)
+    def eval_frame(self, backend, ops, cols, types, rows):
+        """the result frame as a pandas frame (SQL backends and Pandas)"""
+        d = self.frames(cols, types, rows, False)
+        if backend == "pandas":
+            return ops.transform(d)
+        self.h.insert_table(d, table_name="d", allow_overwrite=True)
+        return self.h.read_query(ops if backend == "sqlite" else ops.to_sql(self.pg))
+
+    def run_frame(self, backend, ops, cols, types, rows):
+        if backend == "polars":          # keep NaN and null apart: read the cells from the Polars frame itself
+            r = ops.transform(self.frames(cols, types, rows, True))
             if hasattr(r, "collect"):
                 r = r.collect()
-            r = r.sort("k")
-            return r["r"].to_list()
-        d = self.frames(cols, rows, False)
-        if backend == "pandas":
-            r = ops.transform(d)
-        else:
-            self.h.insert_table(d, table_name="d", allow_overwrite=True)
-            r = self.h.read_query(ops if backend == "sqlite" else ops.to_sql(self.pg))
-        r = r.sort_values("k").reset_index(drop=True)
-        return list(r["r"])
+            return r.sort("k")["r"].to_list()
+        r = self.eval_frame(backend, ops, cols, types, rows)
+        return list(r.sort_values("k").reset_index(drop=True)["r"])
 
-    def run(self, backend, ops, cols, rows):
+    def run(self, backend, ops, cols, types, rows):
         if not rows:
             return []
         try:
-            out = self.run_frame(backend, ops, cols, rows)
+            out = self.run_frame(backend, ops, cols, types, rows)
             if len(out) == len(rows):
                 return out
         except Exception:
             pass
-        res = []                                   # isolate the raising rows
-        for r in rows:
+
+        def one(r):
             try:
-                o = self.run_frame(backend, ops, cols, [r])
-                res.append(o[0] if len(o) == 1 else RAISED)
+                o = self.run_frame(backend, ops, cols, types, [r])
+                return o[0] if len(o) == 1 else RAISED
             except Exception:
-                res.append(RAISED)
+                return RAISED
+        n = len(rows)
+        probe = {i: one(rows[i]) for i in sorted({0, n // 2, n - 1})}
+        if all(v is RAISED for v in probe.values()):
+            return [RAISED] * n                    # the method is not available on this backend
+        res = [None] * n
+
+        def solve(lo, hi):                         # isolate the raising rows by bisection
+            if hi - lo == 1:
+                res[lo] = probe[lo] if lo in probe else one(rows[lo])
+                return
+            try:
+                out = self.run_frame(backend, ops, cols, types, rows[lo:hi])
+                if len(out) == hi - lo:
+                    res[lo:hi] = out
+                    return
+            except Exception:
+                pass
+            mid = (lo + hi) // 2
+            solve(lo, mid)
+            solve(mid, hi)
+        solve(0, n)
         return res
 
 
@@ -313,6 +349,29 @@ def sql_term(ops, model):
     t = ls[0].strip()
     t = t[:t.rindex(' AS "r"')]
     return " ".join(t.split())
+
+
+def detect_variant(rn):
+    """which of the three proposed repairs the code under test carries (the render / behaviour ties then confirm it)"""
+    v = {"fix_maxmin": False, "fix_trimstr": False, "fix_abs_sign": False}
+    try:
+        v["fix_maxmin"] = "IS NULL" not in sql_term(Expr("x.maximum(y)", "probe").ops, rn.sq)
+    except Exception:
+        pass
+    try:
+        v["fix_trimstr"] = "3 - 1" in sql_term(Expr("g.trimstr(1, 3)", "probe").ops, rn.sq)
+    except Exception:
+        pass
+    try:
+        import data_algebra.SQLite as sq
+        v["fix_abs_sign"] = bool((sq._abs_fn(-INF) == INF) and (sq._sign_fn(INF) == 1.0))
+    except Exception:
+        pass
+    return v
+
+
+def cvariant(v):
+    return "(mkvariant %s %s %s)" % tuple("true" if v[k] else "false" for k in ("fix_maxmin", "fix_trimstr", "fix_abs_sign"))
 
 
 # ------------------------------------------------------------------------------------------------ catalogue
@@ -332,28 +391,31 @@ def read_tables():
     return rows, keys, reps
 
 
-def catalog_file(rows, keys, reps):
+def catalog_file(rows, keys, reps, exprs):
     t = [PRE, "Definition rt_rows : list catrow := %s." % clist(["(%s)" % ", ".join(cstr(x) for x in r) for r in rows])]
-    names = []
+    tests, names = ["(catalog_eqb rt_rows catalog_rows)"], ["methods_table"]
     for k, v in keys.items():
         t.append("Definition rt_%s : list string := %s." % (k, clist([cstr(x) for x in v])))
-        names.append("(keys_eqb rt_%s %s)" % (k, k))
+        tests.append("(keys_eqb rt_%s %s)" % (k, k))
+        names.append(k)
     for k, v in reps.items():
         t.append("Definition rt_%s : list (string * string) := %s." % (k, clist(["(%s, %s)" % (cstr(a), cstr(b)) for a, b in v])))
-    t.append("Definition diffs : list nat := (if catalog_eqb rt_rows catalog_rows then [] else [0%nat]) ++ "
-             + " ++ ".join("(if %s then [] else [%d%%nat])" % (n, i + 1) for i, n in enumerate(names))
-             + " ++ (if pairs_eqb rt_db_default_op_replacements db_default_op_replacements then [] else [20%nat])"
-             + " ++ (if pairs_eqb rt_pg_op_replacements pg_op_replacements then [] else [21%nat]).")
+        tests.append("(pairs_eqb rt_%s %s)" % (k, k))
+        names.append(k)
+    # (expression -> method, literal flags) as data_algebra's parser sees the catalogue's own rows
+    ek = ["(%s, (%s, %s))" % (cstr(e.text), cstr(e.op), clist(["true" if l else "false" for l in e.lits])) for e in exprs if e.source == "catalogue"]
+    t.append("Definition rt_expr_keys : list (string * (string * list bool)) := %s." % clist(ek))
+    tests.append("(expr_keys_eqb rt_expr_keys expr_keys)")
+    names.append("expr_keys (expression -> method, literal flags)")
+    t.append("Definition diffs : list nat := " + " ++ ".join("(if %s then [] else [%d%%nat])" % (n, i) for i, n in enumerate(tests)) + ".")
     t.append("Eval vm_compute in diffs.")
-    return "\n".join(t), ["methods_table"] + list(keys) + ["db_default_op_replacements", "pg_op_replacements"]
+    return "\n".join(t), names
 
 
-# ------------------------------------------------------------------------------------------------ the check
-def build_exprs(chk, cat_rows):
-    exprs, unmodelled = [], []
-    seen = set()
+def build_exprs(cat_rows):
+    exprs, unmodelled, seen = [], [], set()
     for (text, op, cl, pdy, sqy, pgy) in cat_rows:
-        if cl != "e" or op in DATE_OPS or text in seen:
+        if cl != "e" or op in DATE_OPS or op == "sum" or text in seen:
             continue
         seen.add(text)
         try:
@@ -381,14 +443,14 @@ def build_exprs(chk, cat_rows):
     return exprs, unmodelled
 
 
-def math_tables(cands):
+def math_tables(cands, agg_lists_=()):
     """reference values of the transcendental symbols for every argument that occurs"""
     t1, t2 = {}, {}
     for op, args in cands:
         fin = [a for a in args if isinstance(a, float) and not math.isinf(a) and not math.isnan(a)]
         if op in MATH1 and len(args) == 1 and len(fin) == 1:
             try:
-                t1[(op, fin[0])] = MATH1[op](fin[0])
+                t1[(op, fractions.Fraction(fin[0]))] = MATH1[op](fin[0])
             except (ValueError, OverflowError):
                 pass
         if op == "**" and len(fin) == 2:
@@ -400,110 +462,278 @@ def math_tables(cands):
                 pass
         if op == "arctan2" and len(fin) == 2:
             t2[("arctan2", fin[0], fin[1])] = math.atan2(fin[0], fin[1])
+    for vals in agg_lists_:                      # std: sqrt of the exact sample variance
+        qs = [fractions.Fraction(v) for v in vals if isinstance(v, float) and not math.isnan(v)]
+        if len(qs) >= 2:
+            m = sum(qs) / len(qs)
+            var = sum((x - m) * (x - m) for x in qs) / (len(qs) - 1)
+            t1[("sqrt", var)] = math.sqrt(float(var))
     m1 = clist(["(%s, %s, %s)" % (cstr(n), cq(a), cq(v)) for (n, a), v in sorted(t1.items())])
     m2 = clist(["(%s, %s, %s, %s)" % (cstr(n), cq(a), cq(b), cq(v)) for (n, a, b), v in sorted(t2.items())])
     return m1, m2
 
 
-def lit_value(v):
-    return float(v) if isinstance(v, (int, float)) and not isinstance(v, bool) else v
+# ------------------------------------------------------------------------------------------------ aggregates / windows
+class AggExpr:
+    """one catalogue row of class p / up / g / w: method over one argument column (or a literal / nothing)"""
+
+    def __init__(self, text, op, cl, support):
+        from data_algebra.data_ops import TableDescription
+        import data_algebra.expr_rep as er
+        self.text, self.cl, self.support = text, cl, support
+        self.boolean = text.startswith("a.")
+        col = "a" if self.boolean else "x"
+        self.expr = re.sub(r"^[a-z]\.", col + ".", text) if re.match(r"^[a-z]\.", text) else text
+        t = TableDescription(table_name="d", column_names=["g", "o", col, "k"])
+        if cl in ("p", "up"):
+            self.ops = t.project({"r": self.expr}, group_by=["g"])
+        elif cl == "g":
+            self.ops = t.extend({"r": self.expr}, partition_by=["g"])
+        else:
+            self.ops = t.extend({"r": self.expr}, partition_by=["g"], order_by=["o"])
+        ex = self.ops.ops["r"]
+        self.op = ex.op
+        self.col = col
+        self.argkind, self.lit = "none", None
+        if len(ex.args) > 0:
+            self.argkind = "col" if isinstance(ex.args[0], er.ColumnReference) else "lit"
+            self.lit = getattr(ex.args[0], "value", None)
+        self.types = {"g": "str", "o": "num", col: "bool" if self.boolean else "num"}
+        self.cols = ["g", "o", col]
+
+    def vals_of(self, lst):
+        """the argument values the method sees for the group whose column cells are lst"""
+        if self.argkind == "lit":
+            return [lit_value(self.lit)] * len(lst)
+        return list(lst)
 
 
+def agg_lists(tier, boolean):
+    """all groups of 1..2 cells over the full value grid and of 3 cells over a reduced grid (quick); 1..4 (booleans 1..5) thorough"""
+    base = BOOL_G if boolean else AGG_VALS
+    out = []
+    if tier == "quick":
+        for n in (1, 2):
+            out += [list(t) for t in itertools.product(base, repeat=n)]
+        out += [list(t) for t in itertools.product(base if boolean else [None, 1.0, 2.5], repeat=3)]
+        return out
+    for n in range(1, (5 if boolean else 4) + 1):
+        out += [list(t) for t in itertools.product(base, repeat=n)]
+    return out
+
+
+def run_agg(rn, backend, ae, lists):
+    """observed output cells per group (list of lists), RAISED for everything if the backend raises"""
+    rows = []
+    for i, l in enumerate(lists):
+        for j, v in enumerate(l):
+            rows.append(("g%05d" % i, float(j), v))
+    try:
+        if backend == "polars":
+            r = ae.ops.transform(rn.frames(ae.cols, ae.types, rows, True))
+            if hasattr(r, "collect"):
+                r = r.collect()
+            gs, rs = r["g"].to_list(), r["r"].to_list()
+            ks = r["k"].to_list() if "k" in r.columns else list(range(len(gs)))
+        else:
+            r = rn.eval_frame(backend, ae.ops, ae.cols, ae.types, rows)
+            gs, rs = list(r["g"]), list(r["r"])
+            ks = list(r["k"]) if "k" in r.columns else list(range(len(gs)))
+    except Exception:
+        return [RAISED] * len(lists)
+    per = {}
+    for g, k, v in sorted(zip(gs, ks, rs), key=lambda t: (t[0], t[1])):
+        per.setdefault(g, []).append(v)
+    return [per.get("g%05d" % i, RAISED) for i in range(len(lists))]
+
+
+# ------------------------------------------------------------------------------------------------ judging cases in Coq
+def scalar_case_term(backend, op, lits, args, o):
+    return "(mk_scase %s %s %s %s %s)" % (BK[backend], cstr(op), clist(["true" if l else "false" for l in lits]),
+                                          clist([csv(a, nan_is_null=False) for a in args]), cobs(o, backend == "polars"))
+
+
+def agg_case_term(backend, cl, op, vals, o):
+    obs = "None" if o is RAISED else "(Some %s)" % clist([csv(x, nan_is_null=(backend != "polars")) for x in o])
+    return "(mk_acase %s %s %s %s %s)" % (BK[backend], CLS[cl], cstr(op), clist([csv(a, nan_is_null=False) for a in vals]), obs)
+
+
+def decode(res, prefix, n, per_):
+    o, m, d, errors = [], [], [], []
+    for k in range(0, n, per_):
+        rc, out = res["%s_%d" % (prefix, k // per_)]
+        ls = nat_lists(out)
+        if rc != 0 or len(ls) != 1:
+            errors.append(out[-1500:])
+            continue
+        for code in ls[0]:
+            i, c = k + code // 8, code % 8
+            if c & 1:
+                o.append(i)
+            if c & 2:
+                m.append(i)
+            if c & 4:
+                d.append(i)
+    return o, m, d, errors
+
+
+# ------------------------------------------------------------------------------------------------ the check
 def run(chk):
     tier = chk.tier
     chk.prove([], extra_vo=["theories/Model/ScalarCases.vo"])
     chk.cov["trusted_base"] = [
         "Coq 8.16.1 kernel + vm_compute",
         "Model/Scalar.v spec_method / spec_agg / spec_win: the documented meaning, written from the Term.* docstrings of expr_rep.py (operators without docstring: Python operator meaning, nulls propagate)",
-        "Model/SqlTemplates.v: hand model of SQLite 3.40 / PostgreSQL scalar operators and functions (three-valued logic, NULL propagation, SQLite % casts to INTEGER, round() half away from zero, the user functions of SQLite.py prepare_connection transcribed) -- modelled, not verified; SQLite part run against the real engine on the whole grid, PostgreSQL engine part formal only (no server)",
-        "Model/ScalarBackends.v: hand models of the numpy / pandas / polars primitives -- run against pandas 3.0.5 / polars 1.44.2 on the whole grid",
+        "Model/SqlTemplates.v, Model/AggModels.v: hand model of SQLite 3.40 / PostgreSQL scalar operators, functions and aggregates (three-valued logic, NULL propagation, SQLite % casts to INTEGER, round() half away from zero, the user functions of SQLite.py prepare_connection transcribed) -- modelled, not verified; the SQLite part is run against the real engine on the whole grid, the PostgreSQL engine part is formal only (no server)",
+        "Model/ScalarBackends.v, Model/AggModels.v: hand models of the numpy / pandas / polars primitives -- run against pandas 3.0.5 / polars 1.44.2 on the whole grid",
+        "Model/ScalarCatalog.v: frozen copy of op_catalog.methods_table and of the formatter / impl-map key sets, compared with /repo inside Coq on every run",
         "harness/props/C05.py: grid generation, conversion of observed cells to exact rationals, reference values of the transcendental symbols from Python's math module (compared with the 1e-8 relative rule)"]
     chk.assumptions = [
-        "argument tuples outside the documented domain are not constrained: comparison / and / or / not / is_in / concat with a missing operand, division by zero, `/` with infinite operands, % mod remainder outside non-negative-integer dividend and positive-integer divisor (destination conventions), exact .5 ties of round/around, floor/ceil/round of +-inf, is_nan of a missing cell and is_null of a distinguishable NaN, coalesce of a distinguishable NaN, as_str / as_int64 of non-strings / non-integers, transcendental functions outside their mathematical domain or at +-inf, x**0 and 1**y with a missing operand",
+        "argument tuples outside the documented domain are not constrained: comparison / and / or / is_in / concat with a missing operand, division by zero, `/` with infinite operands, % mod remainder outside non-negative-integer dividend and positive-integer divisor (destination conventions), exact .5 ties of round/around, floor/ceil/round of +-inf, is_nan of a missing cell and is_null of a distinguishable NaN, coalesce of a distinguishable NaN, as_str / as_int64 of non-strings / non-integers, transcendental functions outside their mathematical domain or at +-inf, x**0 and 1**y with a missing operand; aggregates over groups with no present value, nunique / cumulative functions / shift / first / last / rank over groups with missing cells, rank with ties, any_value over differing values",
         "numeric columns are float columns (integer `/` and `%` conventions of the destination are excluded by the property); a missing cell of a Pandas float column is NaN; uploads write NaN as NULL",
-        "PostgreSQL: no server in the sandbox; the PostgreSQL templates are tied structurally (rendered text) and behaviourally by executing the PostgreSQL-dialect text on SQLite (engine differences: is_inf / is_bad text is not meaningful on SQLite and is excluded from the oracle); the PostgreSQL engine model is formal only and excludes NaN stored in tables",
-        "date / time methods (15 catalogue rows) are outside the modelled value domain: not covered (partial)",
+        "PostgreSQL: no server in the sandbox; the PostgreSQL templates are tied structurally (rendered text) and behaviourally by executing the PostgreSQL-dialect text on SQLite (is_inf / is_bad text, abs / sign of infinity and STDDEV_SAMP / VAR_SAMP are not meaningful there and are excluded from the oracle); the PostgreSQL engine model is formal only",
+        "date / time methods (15 catalogue rows) are outside the modelled value domain: not covered (partial); _count / _ngroup / _uniform have no documented value",
+        "mapv dictionaries with infinite values (not expressible in expression text; Pandas replaces them by the default: theorem C05_pandas_mapv_infinite_value_refuted) are not exercised",
         "transcendental functions are one uninterpreted symbol shared by specification and backends; which library function the symbol is bound to is checked on the grid only"]
     chk.cov["rule"] = ("exhaustive grid: every class-e catalogue expression (plus %d extra one-method expressions) x every tuple of the per-type grid "
                        "(numbers: null, +-inf, 0, +-1, +-2.5, 3 [+ NaN on Polars; thorough: 0.5, -0.25, 7, 100.75, -1000]; integers: null, 0,1,2,3,7,-1,-3; strings: null, '', 'a', \"a'b\", 'abcdef'; booleans: True, False, null) "
-                       "inside the documented domain (decided by spec_method in Coq), on 4 backends; aggregates / window functions over all small partitions; non-trivial = at least one non-null argument; distinct by (backend, expression, tuple)" % len(EXTRA_EXPR))
+                       "inside the documented domain (decided by spec_method in Coq); every class p/g/w catalogue row x every group of 1..2 cells over null,0,1,-1,2.5,3 and of 3 cells over null,1,2.5 (thorough: 1..4 cells over the full grid; booleans: True,False,null up to 3 / 5 cells) inside the domain; "
+                       "4 backends; non-trivial = at least one non-null argument; distinct by (backend, expression, tuple)" % len(EXTRA_EXPR))
     sys.path.insert(0, lib.REPO)
+    rn = Runner()
+    variant = detect_variant(rn)
+    chk.cov["variant"] = variant
+    vterm = cvariant(variant)
     cat_rows, keys, reps = read_tables()
-    # ---- catalogue / key sets against the frozen model tables
-    text, names = catalog_file(cat_rows, keys, reps)
-    exprs, unmodelled = build_exprs(chk, cat_rows)
-    # ---- phase 0: which grid tuples are inside the documented domain
+    exprs, unmodelled = build_exprs(cat_rows)
+    text, names = catalog_file(cat_rows, keys, reps, exprs)
+    aggs = []
+    for (etext, op, cl, pdy, sqy, pgy) in cat_rows:
+        if cl not in CLS or op in UNDOCUMENTED:
+            continue
+        try:
+            aggs.append(AggExpr(etext, op, cl, {"pandas": pdy == "y", "sqlite": sqy == "y", "pgtext": pgy == "y", "polars": True}))
+        except Exception as ex:
+            unmodelled.append((etext, "does not build: %s" % type(ex).__name__))
+    # ---- phase 0: which grid tuples / groups are inside the documented domain
     cands = []                                    # (expr index, polars-only flag, row, args)
     for ei, e in enumerate(exprs):
         base = set()
         for row in e.grid(tier, polars=False):
             base.add(tuple(repr(x) for x in row))
-            cands.append((ei, False, row, [lit_value(v) for v in e.args_of(row)]))
+            cands.append((ei, False, row, e.args_of(row)))
         for row in e.grid(tier, polars=True):
             if tuple(repr(x) for x in row) not in base:
-                cands.append((ei, True, row, [lit_value(v) for v in e.args_of(row)]))
-    dom_terms = ["(%s, %s)" % (cstr(exprs[ei].op), clist([csv(a, nan_is_null=False) for a in args])) for ei, _, _, args in cands]
+                cands.append((ei, True, row, e.args_of(row)))
+    dom_keys, dom_terms, dom_of = {}, [], []
+    for ei, _, _, args in cands:
+        t = "(%s, %s)" % (cstr(exprs[ei].op), clist([csv(a, nan_is_null=False) for a in args]))
+        if t not in dom_keys:
+            dom_keys[t] = len(dom_terms)
+            dom_terms.append(t)
+        dom_of.append(dom_keys[t])
+    acands, akeys, aterms, adom_of = [], {}, [], []          # (agg index, cells, argument values)
+    for ai, ae in enumerate(aggs):
+        for lst in agg_lists(tier, ae.boolean):
+            vals = ae.vals_of(lst)
+            t = "(%s, %s, %s)" % (CLS[ae.cl], cstr(ae.op), clist([csv(a, nan_is_null=False) for a in vals]))
+            if t not in akeys:
+                akeys[t] = len(aterms)
+                aterms.append(t)
+            acands.append((ai, lst, vals))
+            adom_of.append(akeys[t])
     files = [("C05_cat", text)]
-    per = 2000
+    per = max(800, (len(dom_terms) + 3) // 4)
     for k in range(0, len(dom_terms), per):
         files.append(("C05_dom_%d" % (k // per), PRE + "Definition cs := %s.\nEval vm_compute in inside_domain cs.\n" % clist(dom_terms[k:k + per])))
+    aper = max(800, (len(aterms) + 1) // 2)
+    for k in range(0, len(aterms), aper):
+        files.append(("C05_adom_%d" % (k // aper), PRE + "Definition cs := %s.\nEval vm_compute in inside_agg_domain cs.\n" % clist(aterms[k:k + aper])))
+    chk.cov["distribution"]["t_before_phase0_s"] = round(time.time() - chk.t0, 1)
     res = run_coq(files)
+    chk.cov["distribution"]["t_after_phase0_s"] = round(time.time() - chk.t0, 1)
     rc, out = res["C05_cat"]
     diffs = nat_lists(out)
     if rc != 0 or len(diffs) != 1:
         chk.corr_break("catalogue comparison file failed to compile", out[-1500:])
     else:
         for i in diffs[0]:
-            what = names[i] if i < len(names) else {20: "db_default_op_replacements", 21: "pg_op_replacements"}.get(i, str(i))
-            chk.corr_break("the %s of /repo differs from the frozen table in Model/ScalarCatalog.v (a method / formatter key was added, removed or re-marked)" % what,
-                           {"table": what})
+            chk.corr_break("the %s of /repo differs from the frozen table in Model/ScalarCatalog.v (a method / formatter key was added, removed or re-marked)" % names[i],
+                           {"table": names[i]})
     for text_, why in unmodelled:
         chk.corr_break("catalogue row %r is not modelled (%s)" % (text_, why), {"expression": text_})
-    indom = set()
+    indom_t, aindom_t = set(), set()
     for k in range(0, len(dom_terms), per):
         rc, out = res["C05_dom_%d" % (k // per)]
         ls = nat_lists(out)
         if rc != 0 or len(ls) != 1:
             chk.corr_break("domain filter file failed to compile", out[-1500:])
             continue
-        indom.update(k + i for i in ls[0])
-    chk.cov["distribution"]["candidate_tuples"] = len(cands)
-    chk.cov["distribution"]["in_domain_tuples"] = len(indom)
-    # ---- run the real backends
-    rn = Runner()
-    cases, meta = [], []                           # Coq terms, python descriptions
+        indom_t.update(k + i for i in ls[0])
+    for k in range(0, len(aterms), aper):
+        rc, out = res["C05_adom_%d" % (k // aper)]
+        ls = nat_lists(out)
+        if rc != 0 or len(ls) != 1:
+            chk.corr_break("aggregate domain filter file failed to compile", out[-1500:])
+            continue
+        aindom_t.update(k + i for i in ls[0])
+    indom = [ci for ci in range(len(cands)) if dom_of[ci] in indom_t]
+    aindom = [ci for ci in range(len(acands)) if adom_of[ci] in aindom_t]
+    chk.cov["distribution"].update({"candidate_tuples": len(cands), "in_domain_tuples": len(indom),
+                                    "candidate_groups": len(acands), "in_domain_groups": len(aindom)})
+    # ---- run the real backends: scalar expressions
+    cases, meta, nraise = [], [], 0
     per_expr = {}
-    for ci in sorted(indom):
+    for ci in indom:
         ei, ponly, row, args = cands[ci]
         per_expr.setdefault(ei, []).append((ponly, row, args))
-    nraise = 0
     for ei, items in per_expr.items():
         e = exprs[ei]
+        types = {c: COLTYPE[c] for c in e.ucols}
         for backend in BACKENDS:
             rows = [(row, args) for ponly, row, args in items if backend == "polars" or not ponly]
             if not rows:
                 continue
-            obs = rn.run(backend, e.ops, e.cols, [r for r, _ in rows])
+            obs = rn.run(backend, e.ops, e.ucols, types, [r for r, _ in rows])
             for (row, args), o in zip(rows, obs):
                 if o is RAISED:
                     nraise += 1
                     chk.dist("raised_" + backend)
-                cases.append("(mk_scase %s %s %s %s %s)" % (BK[backend], cstr(e.op), clist(["true" if l else "false" for l in e.lits]),
-                                                           clist([csv(a, nan_is_null=False) for a in args]), cobs(o, backend == "polars")))
+                cases.append(scalar_case_term(backend, e.op, e.lits, args, o))
                 meta.append({"expr": e.text, "op": e.op, "backend": backend, "row": row, "args": args, "lits": e.lits,
-                             "observed": "<raised>" if o is RAISED else repr(o), "supported": e.support[backend], "cols": e.cols})
+                             "observed": "<raised>" if o is RAISED else repr(o), "supported": e.support[backend], "cols": e.ucols})
                 chk.count((backend, e.text, repr(row)), nontrivial=any(v is not None for v in row))
                 chk.dist("op_" + e.op)
-        if len(chk.cov["samples"]) < 6 and items:
+        if len(chk.cov["samples"]) < 4 and items:
             chk.sample({"expr": e.text, "row": repr(items[0][1]), "backends": list(BACKENDS)})
+    # ---- aggregates / windows
+    acases, ameta = [], []
+    per_agg = {}
+    for ci in aindom:
+        ai, lst, vals = acands[ci]
+        per_agg.setdefault(ai, []).append((lst, vals))
+    for ai, items in per_agg.items():
+        ae = aggs[ai]
+        for backend in BACKENDS:
+            obs = run_agg(rn, backend, ae, [l for l, _ in items])
+            for (lst, vals), o in zip(items, obs):
+                if o is RAISED:
+                    nraise += 1
+                    chk.dist("raised_" + backend)
+                acases.append(agg_case_term(backend, ae.cl, ae.op, vals, o))
+                ameta.append({"expr": ae.text, "op": ae.op, "class": ae.cl, "backend": backend, "cells": lst, "vals": vals,
+                              "observed": "<raised>" if o is RAISED else repr(o), "supported": ae.support[backend]})
+                chk.count((backend, ae.cl, ae.text, repr(lst)), nontrivial=any(v is not None for v in lst))
+                chk.dist("agg_" + ae.cl + "_" + ae.op)
+        if len(chk.cov["samples"]) < 6 and items:
+            chk.sample({"expr": ae.text, "class": ae.cl, "group": repr(items[-1][0])})
     # ---- structural tie: rendered SQL text
-    import data_algebra.SQLite
-    rcases, rmeta = [], []
+    rcases, rmeta, arcases, armeta = [], [], [], []
     for e in exprs:
-        for dname, model in (("DSqlite", data_algebra.SQLite.SQLiteModel()), ("DPg", rn.pg)):
+        for dname, model in (("DSqlite", rn.sq), ("DPg", rn.pg)):
             try:
                 term = sql_term(e.ops, model)
-            except Exception as ex:
+            except Exception:
                 term = None
             if term is None:
                 chk.corr_break("could not isolate the SQL term of %r" % e.text, {"expr": e.text})
@@ -514,76 +744,198 @@ def run(chk):
                     atoms.append('(false, %s, SNull)' % cstr(model.quote_identifier(s[1])))
                 else:
                     atoms.append('(true, %s, %s)' % (cstr(model.value_to_sql(s[1])), csv(lit_value(s[1]))))
-            rcases.append("(mk_rcase %s %s %s %s)" % (dname, cstr(e.op), clist(atoms), cstr(term)))
+            rcases.append("(mk_rcase %s %s %s %s %s)" % (vterm, dname, cstr(e.op), clist(atoms), cstr(term)))
             rmeta.append({"expr": e.text, "dialect": dname, "sql": term})
+    for ae in aggs:
+        for dname, model in (("DSqlite", rn.sq), ("DPg", rn.pg)):
+            if not ae.support["sqlite" if dname == "DSqlite" else "pgtext"]:
+                continue                               # only the pairs the catalogue claims are tied
+            try:
+                term = sql_term(ae.ops, model)
+            except Exception:
+                term = None
+            if term is None:
+                continue                               # not renderable: nothing to tie
+            core = term.split(" OVER ")[0].strip()
+            col = model.quote_identifier(ae.col) if ae.argkind == "col" else (model.value_to_sql(ae.lit) if ae.argkind == "lit" else "")
+            arcases.append("(mk_arcase %s %s %s %s)" % (dname, cstr(ae.op), cstr(col), cstr(core)))
+            armeta.append({"expr": ae.text, "class": ae.cl, "dialect": dname, "sql": core})
     rn.close()
-    m1, m2 = math_tables([(exprs[ei].op, args) for ei, _, _, args in cands])
-    files = []
-    per = 350
-    head = PRE + "Definition mt1 : mtab := %s.\nDefinition mt2 : mtab2 := %s.\n" % (m1, m2)
-    for k in range(0, len(cases), per):
-        files.append(("C05_s_%d" % (k // per), head + "Definition cs := %s.\nEval vm_compute in check_oracle mt1 mt2 cs.\nEval vm_compute in check_model mt1 mt2 cs.\nEval vm_compute in check_domain mt1 mt2 cs.\n" % clist(cases[k:k + per])))
-    files.append(("C05_render", PRE + "Definition rs := %s.\nEval vm_compute in check_render rs.\n" % clist(rcases)))
-    res = run_coq(files)
-    oracle_fail, model_fail, dom_fail, errors = [], [], [], []
-    for k in range(0, len(cases), per):
-        rc, out = res["C05_s_%d" % (k // per)]
-        ls = nat_lists(out)
-        if rc != 0 or len(ls) != 3:
-            errors.append(out[-1500:])
-            continue
-        oracle_fail += [k + i for i in ls[0]]
-        model_fail += [k + i for i in ls[1]]
-        dom_fail += [k + i for i in ls[2]]
+    chk.cov["distribution"]["t_backends_s"] = round(time.time() - chk.t0, 1)
+    # one parallel Coq wave: scalar, aggregate and render cases.  Identical cases (same backend, method, arguments and observation,
+    # reached through different expressions) are judged once; only the files that need them carry the reference tables of the
+    # transcendental symbols
+    m1, m2 = math_tables([(exprs[ei].op, args) for ei, _, _, args in cands], [vals for _, _, vals in acands])
+    head_math = PRE + "Definition mt1 : mtab := %s.\nDefinition mt2 : mtab2 := %s.\n" % (m1, m2)
+    head_plain = PRE + "Definition mt1 : mtab := [].\nDefinition mt2 : mtab2 := [].\n"
+
+    def uniq(terms):
+        index, order, back = {}, [], []
+        for t in terms:
+            if t not in index:
+                index[t] = len(order)
+                order.append(t)
+            back.append(index[t])
+        return order, back
+    needs_math = lambda m: m["op"] in MATH1 or m["op"] in ("**", "arctan2", "std")
+    groups = {}                                       # name -> (head, checker, unique terms, back-map to case indices)
+    for name, allterms, allmeta, checker in (("C05_s", cases, meta, "check_all"), ("C05_a", acases, ameta, "check_agg")):
+        for kind, head in (("m", head_math), ("p", head_plain)):
+            idx = [i for i in range(len(allterms)) if needs_math(allmeta[i]) == (kind == "m")]
+            order, back = uniq([allterms[i] for i in idx])
+            groups[name + kind] = (head, checker, order, idx, back)
+    sfiles, layout = [], {}
+    for gname, (head, checker, order, idx, back) in groups.items():
+        per_ = min(2000, max(400, (len(order) + 5) // 6))
+        layout[gname] = per_
+        for k in range(0, len(order), per_):
+            sfiles.append(("%s_%d" % (gname, k // per_), head + "Definition cs := %s.\nEval vm_compute in %s mt1 mt2 %s cs.\n" % (clist(order[k:k + per_]), checker, vterm)))
+    sfiles.append(("C05_render", PRE + "Definition rs := %s.\nEval vm_compute in check_render rs.\nDefinition ars := %s.\nEval vm_compute in check_agg_render ars.\n" % (clist(rcases), clist(arcases))))
+    if os.environ.get("C05_KEEP"):
+        for n_, t_ in sfiles:
+            open(os.path.join(os.environ["C05_KEEP"], n_ + ".v"), "w").write(t_)
+    chk.cov["distribution"]["coq_case_files"] = len(sfiles)
+    chk.cov["distribution"]["distinct_cases_judged"] = sum(len(g[2]) for g in groups.values())
+    res = run_coq(sfiles)
+    chk.cov["distribution"]["t_after_cases_s"] = round(time.time() - chk.t0, 1)
+
+    def gather(name):
+        o, m, d, errs = [], [], [], []
+        for kind in ("m", "p"):
+            head, checker, order, idx, back = groups[name + kind]
+            uo, um, ud, e = decode(res, name + kind, len(order), layout[name + kind])
+            errs += e
+            uo, um, ud = set(uo), set(um), set(ud)
+            for pos, u in enumerate(back):
+                if u in uo:
+                    o.append(idx[pos])
+                if u in um:
+                    m.append(idx[pos])
+                if u in ud:
+                    d.append(idx[pos])
+        return sorted(o), sorted(m), sorted(d), errs
+    oracle_fail, model_fail, dom_fail, errors = gather("C05_s")
+    aoracle_fail, amodel_fail, adom_fail, aerrors = gather("C05_a")
+    errors += aerrors
     rc, out = res["C05_render"]
     ls = nat_lists(out)
-    if rc != 0 or len(ls) != 1:
+    if rc != 0 or len(ls) != 2:
         errors.append(out[-1500:])
-        render_fail = []
+        render_fail, arender_fail = [], []
     else:
-        render_fail = ls[0]
-    chk.cov["correspondence"] = {"scalar_cases": len(cases), "model_disagreements": len(model_fail), "oracle_disagreements": len(oracle_fail),
-                                 "render_cases": len(rcases), "render_disagreements": len(render_fail), "raised": nraise, "errors": errors[:2]}
-    chk.cov["traces_validated_against_impl"] = len(cases) + len(rcases)
+        render_fail, arender_fail = ls
+    chk.cov["correspondence"] = {"scalar_cases": len(cases), "scalar_model_disagreements": len(model_fail), "aggregate_cases": len(acases),
+                                 "aggregate_model_disagreements": len(amodel_fail), "render_cases": len(rcases) + len(arcases),
+                                 "render_disagreements": len(render_fail) + len(arender_fail), "raised": nraise, "errors": errors[:2]}
+    chk.cov["traces_validated_against_impl"] = len(cases) + len(acases) + len(rcases) + len(arcases)
     if errors:
         chk.corr_break("correspondence case files failed to compile", errors[0])
     for i in dom_fail[:3]:
         chk.corr_break("a grid tuple left the documented domain between the two Coq passes", meta[i])
+    for i in adom_fail[:3]:
+        chk.corr_break("a group left the documented domain between the two Coq passes", ameta[i])
     for i in render_fail[:5]:
         chk.corr_break("SQL text of %s (%s) differs from the template of Model/SqlTemplates.v" % (rmeta[i]["expr"], rmeta[i]["dialect"]), rmeta[i])
+    for i in arender_fail[:5]:
+        chk.corr_break("SQL text of %s (%s) differs from the template of Model/AggModels.v" % (armeta[i]["expr"], armeta[i]["dialect"]), armeta[i])
     seen_model = set()
+    model_fail = [i for i in model_fail if meta[i]["supported"]]          # the models (and the theorems) speak about the claimed pairs
+    amodel_fail = [i for i in amodel_fail if ameta[i]["supported"]]
+    chk.cov["correspondence"]["scalar_model_disagreements"] = len(model_fail)
+    chk.cov["correspondence"]["aggregate_model_disagreements"] = len(amodel_fail)
     for i in model_fail:
         m = meta[i]
-        key = (m["op"], m["backend"])
-        if key in seen_model:
-            continue
-        seen_model.add(key)
-        chk.corr_break("backend model of %s on %s disagrees with the implementation" % (m["op"], m["backend"]), m)
-    # oracle failures: only pairs the catalogue marks supported (Polars: every method, when it does not raise)
-    seen_sig = set()
+        if (m["op"], m["backend"]) not in seen_model:
+            seen_model.add((m["op"], m["backend"]))
+            chk.corr_break("backend model of %s on %s disagrees with the implementation" % (m["op"], m["backend"]), m)
+    for i in amodel_fail:
+        m = ameta[i]
+        if (m["op"], m["class"], m["backend"]) not in seen_model:
+            seen_model.add((m["op"], m["class"], m["backend"]))
+            chk.corr_break("backend model of %s (class %s) on %s disagrees with the implementation" % (m["op"], m["class"], m["backend"]), m)
+    # ---- oracle failures: only pairs the catalogue marks supported (Polars: every method, when it does not raise)
+    seen_sig, nviol = set(), 0
     for i in oracle_fail:
         m = meta[i]
         if not m["supported"]:
             chk.dist("unsupported_pair_differs")
             continue
-        if m["backend"] == "pgtext" and m["op"] in PGTEXT_NO_ORACLE:
+        if m["backend"] == "pgtext" and not pgtext_oracle_applies(m["op"], m["args"]):
             continue
         sig = signature(m["op"], m["backend"], m["args"], m["lits"])
         key = json.dumps(sig, sort_keys=True)
         if key in seen_sig:
             continue
         seen_sig.add(key)
+        nviol += 1
         chk.impl_violation("%s on %s: value differs from the documented meaning (argument classes %s)" % (m["op"], m["backend"], sig["classes"]),
-                           {"kind": "impl-violation", "family": "scalar", "expr": m["expr"], "op": m["op"], "backend": m["backend"], "cols": m["cols"], "row": m["row"],
-                            "args": m["args"], "lits": m["lits"], "observed": m["observed"]}, sig)
+                           {"kind": "impl-violation", "family": "scalar", "expr": m["expr"], "backend": m["backend"], "cols": m["cols"], "row": m["row"],
+                            "observed": m["observed"], "variant": variant}, sig)
+    for i in aoracle_fail:
+        m = ameta[i]
+        if not m["supported"]:
+            chk.dist("unsupported_pair_differs")
+            continue
+        if m["backend"] == "pgtext" and m["op"] in ("std", "var"):
+            continue
+        sig = {"family": "aggregate", "method": m["op"], "backend": m["backend"], "class": m["class"],
+               "null_pattern": "".join("N" if v is None else "V" for v in m["cells"])}
+        key = json.dumps({k: v for k, v in sig.items() if k != "null_pattern"}, sort_keys=True)      # one report per (method, class, backend): the first group
+        if key in seen_sig:
+            continue
+        seen_sig.add(key)
+        nviol += 1
+        chk.impl_violation("%s (class %s) on %s: value differs from the documented meaning" % (m["op"], m["class"], m["backend"]),
+                           {"kind": "impl-violation", "family": "aggregate", "expr": m["expr"], "class": m["class"], "backend": m["backend"], "cells": m["cells"],
+                            "observed": m["observed"], "variant": variant}, sig)
     if os.environ.get("C05_DEBUG"):
         json.dump({"model": [meta[i] for i in model_fail], "oracle": [meta[i] for i in oracle_fail], "render": [rmeta[i] for i in render_fail],
+                   "amodel": [ameta[i] for i in amodel_fail], "aoracle": [ameta[i] for i in aoracle_fail], "arender": [armeta[i] for i in arender_fail],
                    "breaks": [b["what"] for b in getattr(chk, "pending_breaks", [])], "errors": errors}, open(os.environ["C05_DEBUG"], "w"), indent=1, default=repr)
-    chk.cov["oracle"] = {"supported_pairs_checked": len(set((m["op"], m["backend"]) for m in meta if m["supported"])),
-                         "oracle_failures_on_supported_pairs": sum(1 for i in oracle_fail if meta[i]["supported"])}
+    chk.cov["oracle"] = {"supported_pairs_checked": len(set((m["op"], m["backend"]) for m in meta if m["supported"])) + len(set((m["op"], m["class"], m["backend"]) for m in ameta if m["supported"])),
+                         "oracle_failures_on_supported_pairs": sum(1 for i in oracle_fail if meta[i]["supported"]) + sum(1 for i in aoracle_fail if ameta[i]["supported"]),
+                         "distinct_failure_signatures": nviol}
 
 
+# ------------------------------------------------------------------------------------------------ replay
 def replay(path):
+    """re-run one stored failing input against the real code and judge it with the specification in Coq; 1 = still fails"""
     r = json.load(open(path))
-    print(json.dumps(r, indent=1)[:3000])
-    return 1
+    if r.get("kind") != "impl-violation":
+        print(json.dumps(r, indent=1)[:3000])
+        return 1
+    sys.path.insert(0, lib.REPO)
+    rn = Runner()
+    variant = detect_variant(rn)
+
+    def cell(v):
+        return float(v) if isinstance(v, (int, float)) and not isinstance(v, bool) else v
+    if r["family"] == "scalar":
+        e = Expr(r["expr"], "replay")
+        row = [cell(v) for v in r["row"]]
+        obs = rn.run(r["backend"], e.ops, e.ucols, {c: COLTYPE[c] for c in e.ucols}, [row])[0]
+        args = e.args_of(row)
+        m1, m2 = math_tables([(e.op, args)])
+        text = (PRE + "Definition mt1 : mtab := %s.\nDefinition mt2 : mtab2 := %s.\n" % (m1, m2)
+                + "Definition cs := [%s].\nEval vm_compute in check_all mt1 mt2 %s cs.\n" % (scalar_case_term(r["backend"], e.op, e.lits, args, obs), cvariant(variant)))
+        print("expression %s on %s, row %r: observed %s" % (r["expr"], r["backend"], row, "<raised>" if obs is RAISED else repr(obs)))
+    else:
+        cat_rows, _, _ = read_tables()
+        row = [c for c in cat_rows if c[0] == r["expr"] and c[2] == r["class"]][0]
+        ae = AggExpr(row[0], row[1], row[2], {})
+        cells = [cell(v) for v in r["cells"]]
+        obs = run_agg(rn, r["backend"], ae, [cells])[0]
+        vals = ae.vals_of(cells)
+        m1, m2 = math_tables([], [vals])
+        text = (PRE + "Definition mt1 : mtab := %s.\nDefinition mt2 : mtab2 := %s.\n" % (m1, m2)
+                + "Definition cs := [%s].\nEval vm_compute in check_agg mt1 mt2 %s cs.\n" % (agg_case_term(r["backend"], ae.cl, ae.op, vals, obs), cvariant(variant)))
+        print("%s (class %s) on %s, group %r: observed %s" % (r["expr"], r["class"], r["backend"], cells, "<raised>" if obs is RAISED else repr(obs)))
+    rn.close()
+    rc, out = run_coq([("C05_replay", text)])["C05_replay"]
+    ls = nat_lists(out)
+    if rc != 0 or len(ls) != 1:
+        print(out[-1500:])
+        return 1
+    bad = any(c % 8 & 1 for c in ls[0])
+    print("documented value %s" % ("VIOLATED" if bad else "respected"))
+    return 1 if bad else 0
